@@ -21,10 +21,25 @@ import (
 
 const (
 	verifDir   = "/verif"
-	engineDir  = "/verif/engine"
-	repoDir    = "/repo"
 	harnessDir = "/verif/harness"
 )
+
+// The registered commands always use /repo and /verif/engine.  For development only
+// (trying the checks on a seeded change in a scratch worktree while /repo stays untouched),
+// GOSYM_REPO_DIR names another checkout and GOSYM_ENGINE_DIR a copy of the engine module
+// whose go.mod replaces go-jsonschema by that checkout; scripts/try_seed_wt.sh sets both.
+var (
+	engineDir = envOr("GOSYM_ENGINE_DIR", "/verif/engine")
+	repoDir   = envOr("GOSYM_REPO_DIR", "/repo")
+	replayDir = envOr("GOSYM_REPLAY_DIR", "/verif/replays")
+)
+
+func envOr(name, def string) string {
+	if v := os.Getenv(name); v != "" {
+		return v
+	}
+	return def
+}
 
 func main() {
 	if len(os.Args) < 2 {
